@@ -33,27 +33,46 @@ def _op_place(o):
     return o.get("mv") or o.get("cp")
 
 
-def _transfer(fn, b, fs, tracked):
-    """Apply block b's statements and terminator to the fact map fs; returns (facts-after, successor list)."""
+def _outer(f):
+    return f[0] if isinstance(f, tuple) and f and f[0] != "discr" else None
+
+
+def _transfer(fn, b, fs, tracked, root):
+    """Apply block b's statements and terminator to the fact map fs; returns (facts-after, successor list).
+    A fact is (variant, inner fact or None): `Ok(Some(x))` is ("Ok", ("Some", None))."""
     fs = dict(fs)
+    in_callee = b.get("origin", root) != root
     for s in b["stmts"]:
         lhs = s["lhs"]
         rv = s["rv"]
         k = rv["k"]
         new = None
         if not lhs.get("p"):
-            if k == "agg" and rv.get("ak") == "adt" and rv.get("adt") in TRACK_ADTS and lhs["l"] in tracked:
-                new = rv.get("variant")
+            if k == "agg" and rv.get("ak") == "adt" and rv.get("adt") in TRACK_ADTS and (lhs["l"] in tracked or in_callee):
+                inner = None
+                if len(rv["fields"]) == 1:
+                    p = _op_place(rv["fields"][0])
+                    if p is not None and not p.get("p") and _outer(fs.get(p["l"])):
+                        inner = fs[p["l"]]
+                        if "mv" in rv["fields"][0]:
+                            fs.pop(p["l"], None)
+                new = (rv.get("variant"), inner)
             elif k == "use":
                 p = _op_place(rv["op"])
-                if p is not None and not p.get("p") and p["l"] in fs:
-                    new = fs[p["l"]]
-                    if "mv" in rv["op"]:
-                        fs.pop(p["l"], None)
+                if p is not None and p["l"] in fs:
+                    pr = p.get("p") or []
+                    if not pr:
+                        new = fs[p["l"]]
+                        if "mv" in rv["op"]:
+                            fs.pop(p["l"], None)
+                    elif len(pr) == 2 and isinstance(pr[0], dict) and "dc" in pr[0] and isinstance(pr[1], dict) \
+                            and pr[1].get("f") == 0 and _outer(fs[p["l"]]) == pr[0]["dc"]:
+                        # payload of a known variant: `x = move (_c as Continue).0`
+                        new = fs[p["l"]][1]
             elif k == "discr":
                 p = rv["pl"]
-                if not p.get("p") and isinstance(fs.get(p["l"]), str) and fs[p["l"]] in DISCR:
-                    new = ("discr", DISCR[fs[p["l"]]], p["l"])
+                if not p.get("p") and _outer(fs.get(p["l"])) in DISCR:
+                    new = ("discr", DISCR[_outer(fs[p["l"]])], p["l"])
             if new is not None:
                 fs[lhs["l"]] = new
             else:
@@ -78,14 +97,15 @@ def _transfer(fn, b, fs, tracked):
         f = t.get("fn") or {}
         if f.get("orig") == TRY_BRANCH and t["args"]:
             p = _op_place(t["args"][0])
-            if p is not None and not p.get("p") and isinstance(fs.get(p["l"]), str) and fs[p["l"]] in BRANCH:
-                new = BRANCH[fs[p["l"]]]
-        if f.get("orig") == "core::ops::try_trait::FromResidual::from_residual" and not d.get("p") and d["l"] in tracked:
+            if p is not None and not p.get("p") and _outer(fs.get(p["l"])) in BRANCH:
+                new = (BRANCH[_outer(fs[p["l"]])], fs[p["l"]][1])
+        if f.get("orig") == "core::ops::try_trait::FromResidual::from_residual" and not d.get("p") and \
+                (d["l"] in tracked or in_callee):
             ty = fn.locals[d["l"]]["ty"]
             if ty.startswith("core::result::Result<"):
-                new = "Err"
+                new = ("Err", None)
             elif ty.startswith("core::option::Option<"):
-                new = "None"
+                new = ("None", None)
         for a in t["args"]:
             p = _op_place(a)
             if p is not None and "mv" in a and not p.get("p"):
@@ -111,9 +131,78 @@ def _transfer(fn, b, fs, tracked):
                     tgt = t["otherwise"]
                 succ = [tgt]
                 fs.pop(p["l"], None)
-                fs.pop(f_[2], None)
+                # the matched value keeps its payload fact until it is moved out, but its own variant is consumed
+                src = fs.get(f_[2])
+                if src is not None and src[1] is None:
+                    fs.pop(f_[2], None)
         return fs, succ
     return fs, []
+
+
+def _relevant_liveness(fn):
+    """live_in[b]: locals whose variant may still be inspected (discriminant, `?`, move/copy of the whole value or
+    of its payload, wrapping into another tracked enum, switch) on some path from the start of b before they are
+    overwritten.  Facts about other locals are useless and dropped, so product states merge early."""
+    blocks = fn.blocks
+    n = len(blocks)
+    gen = [set() for _ in range(n)]
+    kill = [set() for _ in range(n)]
+    succ = [[] for _ in range(n)]
+    for i, b in enumerate(blocks):
+        if b.get("cleanup"):
+            continue
+        g, kl = gen[i], kill[i]
+
+        def use(l):
+            if l not in kl:
+                g.add(l)
+        for s in b["stmts"]:
+            rv = s["rv"]
+            k = rv["k"]
+            if k == "use":
+                p = _op_place(rv["op"])
+                if p is not None:
+                    use(p["l"])
+            elif k == "discr":
+                use(rv["pl"]["l"])
+            elif k == "agg":
+                for o in rv["fields"]:
+                    p = _op_place(o)
+                    if p is not None and not p.get("p"):
+                        use(p["l"])
+            if not s["lhs"].get("p"):
+                kl.add(s["lhs"]["l"])
+        t = b["term"]
+        k = t["k"]
+        if k == "call":
+            if (t.get("fn") or {}).get("orig") == TRY_BRANCH and t["args"]:
+                p = _op_place(t["args"][0])
+                if p is not None:
+                    use(p["l"])
+            if not t["dest"].get("p"):
+                kl.add(t["dest"]["l"])
+            if t.get("target") is not None:
+                succ[i] = [t["target"]]
+        elif k == "switch":
+            p = _op_place(t["op"])
+            if p is not None:
+                use(p["l"])
+            succ[i] = [tb for _, tb in t["targets"]] + [t["otherwise"]]
+        elif k in ("goto", "assert", "drop"):
+            succ[i] = [t["target"]]
+    live_in = [set(g) for g in gen]
+    changed = True
+    while changed:
+        changed = False
+        for i in range(n - 1, -1, -1):
+            out = set()
+            for s_ in succ[i]:
+                out |= live_in[s_]
+            new = gen[i] | (out - kill[i])
+            if new != live_in[i]:
+                live_in[i] = new
+                changed = True
+    return live_in
 
 
 def _retarget(t, mapping):
@@ -144,6 +233,8 @@ def threaded(fn, limit_factor=4):
         return fn
     blocks = fn.blocks
     nb = len(blocks)
+    root = fn.path
+    live = _relevant_liveness(fn)
     limit = limit_factor * nb + 400
     # explore the product
     start = (0, frozenset())
@@ -158,13 +249,12 @@ def threaded(fn, limit_factor=4):
         if b.get("cleanup"):
             succs[st] = []
             continue
-        out, ss = _transfer(fn, b, dict(fs), tracked)
-        key = frozenset(out.items())
+        out, ss = _transfer(fn, b, dict(fs), tracked, root)
         res = []
         for s in ss:
             if blocks[s].get("cleanup"):
                 continue
-            ns = (s, key)
+            ns = (s, frozenset((l, f_) for l, f_ in out.items() if l in live[s]))
             if ns not in index:
                 index[ns] = len(order)
                 order.append(ns)
